@@ -3,9 +3,12 @@ package props
 import (
 	"encoding/json"
 	"fmt"
+	"reflect"
 	"sort"
 	"strconv"
 	"testing"
+
+	"pgregory.net/rapid"
 
 	bexpr "github.com/hashicorp/go-bexpr"
 
@@ -164,4 +167,155 @@ func TestC06_TypedFold(t *testing.T) {
 		}
 	}
 	t.Logf("typed fold cases: %d", n)
+}
+
+// TestC06_AfterPanic: a quantifier's bindings exist inside its braces and nowhere else - also
+// when the fold is ABANDONED: the caller's value hook panics on one element (a bug in the hook,
+// a nil dereference) while the body is being evaluated, the caller recovers and goes on. Whatever
+// is evaluated afterwards - by the same evaluator, by new ones, with and without hook, on
+// documents whose top-level keys are spelled like the abandoned bindings - denotes what it
+// denotes.
+type c06PanicCase struct {
+	Quant  string            `json:"quant"`  // the interrupted expression
+	Probes [][]byte          `json:"probes"` // evaluated afterwards (rendered)
+	ASTs   []json.RawMessage `json:"asts"`
+	Datum  *uni.Node         `json:"datum"`
+	Rounds int               `json:"rounds"`
+}
+
+var c06Marker = "boom!"
+
+func c06PanicHook(v reflect.Value) reflect.Value {
+	d := v
+	for d.IsValid() && (d.Kind() == reflect.Interface || d.Kind() == reflect.Ptr) && !d.IsNil() {
+		d = d.Elem()
+	}
+	if d.IsValid() && d.Kind() == reflect.String && d.String() == c06Marker {
+		panic("hook: unexpected value")
+	}
+	return v
+}
+
+func c06PanicRun(t failer, c *c06PanicCase) {
+	d := c.Datum.Interface()
+	interrupted, err := bexpr.CreateEvaluator(c.Quant, bexpr.WithHookFn(c06PanicHook))
+	if err != nil {
+		t.Fatalf("harness: %q rejected: %v", c.Quant, err)
+	}
+	for round := 0; round < c.Rounds; round++ {
+		func() {
+			defer func() { recover() }()
+			interrupted.Evaluate(d)
+		}()
+		for i, raw := range c.ASTs {
+			e, uerr := bx.Unmarshal(raw)
+			if uerr != nil {
+				t.Fatalf("harness: %v", uerr)
+			}
+			ec := newEvalCase(string(c.Probes[i]), e, c.Datum, Opts{})
+			want := (&ref.Env{Root: c.Datum}).Eval(e)
+			for _, withHook := range []bool{false, true} {
+				var opts []bexpr.Option
+				if withHook {
+					opts = append(opts, bexpr.WithHookFn(identityHook))
+				}
+				ev, cerr := bexpr.CreateEvaluator(string(c.Probes[i]), opts...)
+				if cerr != nil {
+					t.Fatalf("harness: %q rejected: %v", c.Probes[i], cerr)
+				}
+				res, eerr, pan := safeEvaluate(ev, d)
+				if pan != nil || !want.Has(ref.Of(res, eerr)) {
+					violation(t, "C06", "TestC06_AfterPanic", c, "after %q was abandoned %d time(s) by a panic of the caller's hook (recovered by the caller), %s returns (%v, %v, panic %v); it denotes %s\n datum: %s",
+						c.Quant, round+1, ec.TextQ, res, eerr, pan, want, c.Datum)
+				}
+			}
+		}
+	}
+}
+
+func init() {
+	replayers["TestC06_AfterPanic"] = func(t *testing.T, raw json.RawMessage) {
+		var c c06PanicCase
+		if err := json.Unmarshal(raw, &c); err != nil {
+			t.Fatalf("bad case: %v", err)
+		}
+		c06PanicRun(t, &c)
+		t.Logf("replay ok")
+	}
+}
+
+func TestC06_AfterPanic(t *testing.T) {
+	r := rec(t, "C06", c06Rule+"; TestC06_AfterPanic: a fold abandoned by a panic of the caller's hook at a drawn element (recovered), then probes whose selectors start with the names the abandoned fold had bound; against the reference; non-trivial = the panic happens after at least one element was bound")
+	rapid.Check(t, func(t *rapid.T) {
+		strT := uni.Scalar(uni.KString)
+		names := []string{"x", "v", "k", "i", "it", "e"}
+		n1 := names[rapid.IntRange(0, len(names)-1).Draw(t, "name1")]
+		n2 := names[rapid.IntRange(0, len(names)-1).Draw(t, "name2")]
+		if n2 == n1 {
+			n2 = n1 + "2"
+		}
+		mkElem := func(f int, boom bool) *uni.Node {
+			m := &uni.Node{T: uni.MapOf(strT, uni.Iface()), Keys: []*uni.Node{uni.Str("f"), uni.Str("g")}, Elems: []*uni.Node{uni.InIface(uni.Int(uni.KInt, int64(f))), uni.InIface(uni.Str("ok"))}}
+			if boom {
+				m.Elems[1] = uni.InIface(uni.Str(c06Marker))
+			}
+			return m
+		}
+		nel := rapid.IntRange(1, 5).Draw(t, "elems")
+		at := rapid.IntRange(0, nel-1).Draw(t, "panicAt")
+		asMap := rapid.Bool().Draw(t, "mapColl")
+		var coll *uni.Node
+		if asMap {
+			coll = &uni.Node{T: uni.MapOf(strT, uni.Iface())}
+		} else {
+			coll = uni.List(uni.SliceOf(uni.Iface()))
+		}
+		for j := 0; j < nel; j++ {
+			if asMap {
+				coll.Keys = append(coll.Keys, uni.Str("k"+strconv.Itoa(j)))
+			}
+			coll.Elems = append(coll.Elems, uni.InIface(mkElem(j, j == at)))
+		}
+		// top-level keys spelled like the bindings
+		root := &uni.Node{T: uni.MapOf(strT, uni.Iface())}
+		put := func(k string, v *uni.Node) {
+			root.Keys = append(root.Keys, uni.Str(k))
+			root.Elems = append(root.Elems, uni.InIface(v))
+		}
+		put("xs", coll)
+		put(n1, mkElem(100, false))
+		put(n2, uni.List(uni.SliceOf(uni.Iface()), uni.InIface(mkElem(200, false))))
+		mode := rapid.IntRange(0, 3).Draw(t, "mode")
+		var q string
+		switch mode {
+		case 0:
+			q = fmt.Sprintf("all xs as %s { %s.g != zz }", n1, n1)
+			if asMap {
+				q = fmt.Sprintf("all xs as %s, %s { %s.g != zz }", n2, n1, n1)
+			}
+		case 1:
+			q = fmt.Sprintf("all xs as %s, %s { %s.g != zz }", n2, n1, n1)
+		case 2:
+			q = fmt.Sprintf("all xs as _, %s { %s.g != zz and (any %s as %s { %s.g != zz }) }", n1, n1, n2, n2, n2)
+		default:
+			q = fmt.Sprintf("any %s as %s { all xs as _, %s { %s.g != zz } }", n2, n2, n1, n1)
+		}
+		probes := []bx.Expr{
+			&bx.Match{Sel: bx.Sel{Parts: []string{n1, "f"}}, Op: bx.OpEq, Lit: "100"},
+			&bx.Match{Sel: bx.Sel{Parts: []string{n2, "0", "f"}}, Op: bx.OpEq, Lit: "200"},
+			&bx.Quant{Sel: bx.Sel{Parts: []string{n2}}, Mode: bx.BindBoth, Index: "a", Value: "b", Body: &bx.Match{Sel: bx.Sel{Parts: []string{n1, "f"}}, Op: bx.OpEq, Lit: "100"}},
+			&bx.And{L: &bx.Match{Sel: bx.Sel{Parts: []string{n1, "g"}}, Op: bx.OpEq, Lit: "ok"}, R: &bx.Quant{All: true, Sel: bx.Sel{Parts: []string{"xs"}}, Mode: bx.BindValue, Value: n1, Body: &bx.Match{Sel: bx.Sel{Parts: []string{n1, "f"}}, Op: bx.OpNe, Lit: "100"}}},
+			&bx.Match{Sel: bx.Sel{Parts: []string{n1}}, Op: bx.OpNotEmpty},
+		}
+		c := &c06PanicCase{Quant: q, Datum: root, Rounds: rapid.IntRange(1, 3).Draw(t, "rounds")}
+		rend := bx.NewRenderer(chooser(t))
+		rend.MaxParen = 1
+		for _, e := range probes {
+			text, _ := rend.Render(e)
+			c.Probes = append(c.Probes, []byte(text))
+			c.ASTs = append(c.ASTs, bx.Marshal(e))
+		}
+		c06PanicRun(t, c)
+		r.Case(q+"\x00"+root.String(), at > 0, map[string]interface{}{"abandoned": q, "panic_at_element": at, "elements": nel, "datum": root.String()}, fmt.Sprintf("mode:%d", mode), fmt.Sprintf("map:%v", asMap))
+	})
 }
